@@ -119,4 +119,20 @@ void h_install(void) {
     END();
 }
 
+// ---- O3e: the polling interval ("up to one polling interval"): Search::setStrength sets the number of nodes between two evaluations of the stop predicate
+//      to 1000, lowered to maxNPS/100 (about 10 ms of search at the throttled speed) but never below 1 when a speed cap is configured
+void h_polling(void) {
+    Search& s = searchMem.obj;
+    int strength = nondet_int(), maxNPS = nondet_int(); U64 seed = nondet_u64();
+    s.nodesBetweenTimeCheck = nondet_int();
+    s.setStrength(strength, seed, maxNPS);                    // real
+    int n = s.nodesBetweenTimeCheck;
+    verif_observe(n);
+    CHECK(n >= 1 && n <= 1000, "between two stop tests at least 1 and at most 1000 nodes are searched");
+    if (maxNPS <= 0) CHECK(n == 1000, "no speed cap: every 1000 nodes");
+    else CHECK(n == (maxNPS / 100 < 1 ? 1 : maxNPS / 100 > 1000 ? 1000 : maxNPS / 100), "speed cap: every maxNPS/100 nodes, clamped to [1,1000]");
+    CHECK(s.strength >= 0 && s.strength <= 1000 && s.weak == (s.strength < 1000) && s.maxNPS == maxNPS, "strength clamped to [0,1000], speed cap stored");
+    END();
+}
+
 } // extern "C"
